@@ -389,3 +389,129 @@ Qed.
 
 Theorem inv_reach cf s : 0 <= maxw cf -> reach cf s -> Inv cf s.
 Proof. intros H R. induction R; [now apply inv_init|eauto using inv_step]. Qed.
+
+(* ---------- the property theorems ---------- *)
+Lemma sumw_add n f g : sumw n (fun w => (f w + g w)%nat) = (sumw n f + sumw n g)%nat.
+Proof. induction n as [|n IH]; [reflexivity|]. rewrite !sumw_S, IH. lia. Qed.
+
+Lemma ctok_places s c : ctok s c = places s c.
+Proof.
+  unfold ctok, places, n_rejected, n_held, n_queued, n_serving, n_served.
+  rewrite <- Nat.add_assoc with (m := sumw _ _) (p := sumw _ _), <- sumw_add.
+  f_equal; [f_equal|].
+  apply sumw_ext. intros w _. unfold cin, queued_in, serving_in, cbusy.
+  destruct (wk s w) as [[p q]|]; cbn [pc ch]; [|reflexivity]. reflexivity.
+Qed.
+
+Theorem each_conn_once cf s : 0 <= maxw cf -> reach cf s ->
+  forall c, (In c (seen s) -> places s c = 1%nat) /\ (~ In c (seen s) -> places s c = 0%nat).
+Proof.
+  intros H R c. apply (inv_reach _ _ H) in R. rewrite <- ctok_places, (i_ctok _ _ R c).
+  pose proof (i_seen _ _ R c) as L. pose proof (cnt_In c (seen s)) as I. split; intros HI.
+  - apply I in HI. lia.
+  - destruct (cnt c (seen s)) eqn:E; [reflexivity|]. exfalso. apply HI, I. lia.
+Qed.
+
+Theorem bound cf s : 0 <= maxw cf -> reach cf s ->
+  wcount s <= maxw cf /\ Z.of_nat (live_workers s) = wcount s /\ (forall w, (nextw s <= w)%nat -> wk s w = None).
+Proof.
+  intros H R. apply (inv_reach _ _ H) in R. repeat split; [apply (i_bound _ _ R)| |apply (i_fresh _ _ R)].
+  rewrite <- (i_count _ _ R). reflexivity.
+Qed.
+
+Lemma idle_can_send cf : 0 <= cap cf -> can_send cf (mkW WWait []) = true.
+Proof.
+  intros H. unfold can_send. cbn [pc ch length]. destruct (cap cf <=? 0) eqn:E; [reflexivity|].
+  apply Z.leb_gt in E. apply Z.ltb_lt. lia.
+Qed.
+
+Lemma ref_sendable cf s w : 0 <= cap cf -> Inv cf s ->
+  (0 < cnt w (map r_w (ready s)) + cnt w (map snd (holding s)) + cnt w (clist (cln s)))%nat ->
+  sendable cf (wk s w) w = true.
+Proof.
+  intros Hc HI H. unfold sendable. rewrite (referenced_alive _ _ _ HI H). now apply idle_can_send.
+Qed.
+
+Theorem chan_len cf s w x : 0 <= maxw cf -> reach cf s -> wk s w = Some x -> (length (ch x) <= 1)%nat.
+Proof.
+  intros H R E. apply (inv_reach _ _ H) in R. pose proof (wtok_parts _ _ w R) as P. rewrite E in P. cbn [wown] in P. lia.
+Qed.
+
+Theorem send_enabled cf s c w h' : 0 <= maxw cf -> 0 <= cap cf -> reach cf s ->
+  take_hold c (holding s) = Some (w, h') -> step cf s (Send c) <> None.
+Proof.
+  intros H Hc R E. apply (inv_reach _ _ H) in R. cbn [step]. rewrite E.
+  rewrite (ref_sendable _ _ _ Hc R); [discriminate|].
+  apply take_hold_spec in E as (h1 & h2 & -> & _). rewrite map_app, cnt_app. cbn [map cnt snd]. rewrite Nat.eqb_refl. lia.
+Qed.
+
+Theorem notify_enabled cf s ws : 0 <= maxw cf -> 0 <= cap cf -> reach cf s ->
+  cln s = CNotify ws -> step cf s CleanNotify <> None.
+Proof.
+  intros H Hc R E. apply (inv_reach _ _ H) in R. cbn [step]. rewrite E. destruct ws as [|w rest]; [discriminate|].
+  rewrite (ref_sendable _ _ _ Hc R); [discriminate|]. rewrite E. cbn [clist cnt]. rewrite Nat.eqb_refl. lia.
+Qed.
+
+Theorem stop_enabled cf s : 0 <= maxw cf -> 0 <= cap cf -> reach cf s ->
+  mustStop s = false -> step cf s Stop <> None.
+Proof.
+  intros H Hc R E. apply (inv_reach _ _ H) in R. cbn [step]. rewrite E.
+  assert (F : forallb (fun r => sendable cf (wk s) (r_w r)) (ready s) = true).
+  { apply forallb_forall. intros r Hr. apply (ref_sendable _ _ _ Hc R).
+    assert (In (r_w r) (map r_w (ready s))) by now apply in_map. apply cnt_In in H0. lia. }
+  rewrite F. discriminate.
+Qed.
+
+(* quiescence *)
+Lemma quiescent_parts s : quiescent s = true ->
+  holding s = [] /\ cln s = CIdle /\ forall w, (w < nextw s)%nat -> idle_worker (wk s w) = true.
+Proof.
+  unfold quiescent. destruct (holding s); [|discriminate]. destruct (cln s); try discriminate.
+  intros F. repeat split. intros w L. rewrite forallb_forall in F. apply F. apply in_seq. lia.
+Qed.
+
+Theorem quiescent_all_done cf s : 0 <= maxw cf -> reach cf s -> quiescent s = true ->
+  forall c, In c (seen s) ->
+    (n_rejected s c + n_served s c = 1)%nat /\ n_held s c = 0%nat /\ n_queued s c = 0%nat /\ n_serving s c = 0%nat.
+Proof.
+  intros H R Q c Hc. destruct (each_conn_once _ _ H R c) as [P _]. specialize (P Hc).
+  destruct (quiescent_parts _ Q) as (Hh & _ & Hi).
+  assert (A : n_held s c = 0%nat) by (unfold n_held; now rewrite Hh).
+  assert (B : n_queued s c = 0%nat).
+  { apply sumw_zero. intros w L. specialize (Hi w L). destruct (wk s w) as [[p q]|]; [|reflexivity].
+    cbn in Hi. destruct p; try discriminate. destruct q; [reflexivity|discriminate]. }
+  assert (C : n_serving s c = 0%nat).
+  { apply sumw_zero. intros w L. specialize (Hi w L). destruct (wk s w) as [[p q]|]; [|reflexivity].
+    cbn in Hi. destruct p; try discriminate. reflexivity. }
+  unfold places in P. lia.
+Qed.
+
+Theorem stop_quiescent cf s : 0 <= maxw cf -> reach cf s -> mustStop s = true ->
+  ready s = [] /\
+  (quiescent s = true -> wcount s = 0 /\ (forall w, wk s w = None) /\
+     forall c, In c (seen s) -> (n_rejected s c + n_served s c = 1)%nat).
+Proof.
+  intros H R M. pose proof (inv_reach _ _ H R) as HI. pose proof (i_stop _ _ HI M) as Hr. split; [exact Hr|].
+  intros Q. destruct (quiescent_parts _ Q) as (Hh & Hcl & Hi).
+  assert (D : forall w, wk s w = None).
+  { intros w. destruct (Nat.lt_ge_cases w (nextw s)) as [L|G]; [|now apply (i_fresh _ _ HI)].
+    specialize (Hi w L). pose proof (i_wtok _ _ HI w) as T. unfold wtok in T. rewrite Hr, Hh, Hcl in T.
+    destruct (wk s w) as [[p q]|]; [|reflexivity]. cbn in Hi. destruct p; try discriminate. destruct q; [|discriminate].
+    cbn in T. lia. }
+  repeat split; [|exact D|].
+  - rewrite <- (i_count _ _ HI). rewrite sumw_zero; [reflexivity|]. intros w _. now rewrite D.
+  - intros c Hc. now destruct (quiescent_all_done _ _ H R Q c Hc).
+Qed.
+
+(* a worker that exits leaves nothing behind: its channel is empty and nobody refers to it,
+   so handing its workerChan back to the sync.Pool is safe *)
+Theorem exit_clean cf s w s' : 0 <= maxw cf -> reach cf s -> step cf s (WorkerExit w) = Some s' ->
+  exists x, wk s w = Some x /\ ch x = [] /\
+    ~ In w (map r_w (ready s)) /\ ~ In w (map snd (holding s)) /\ ~ In w (clist (cln s)).
+Proof.
+  intros H R Hs. apply (inv_reach _ _ H) in R. cbn [step] in Hs.
+  destruct (wk s w) as [[p q]|] eqn:E; [|discriminate]. destruct p; try discriminate.
+  pose proof (wtok_parts _ _ w R) as P. rewrite E in P. cbn [wown pc ch running] in P.
+  exists (mkW WExiting q). split; [reflexivity|]. cbn [ch].
+  repeat split; try (intros I; apply cnt_In in I; lia). destruct q; [reflexivity|cbn in P; lia].
+Qed.
